@@ -209,6 +209,27 @@ Definition t_new_finite_factor (t : tables) (name : nat) (shape : list nat) (tag
     end
   end.
 
+(** In-place updates of the weights of a factor that is already bound:
+    [fac = self.factors[name]] (KeyError when no factor is bound to the name), and then the
+    storage of [fac.weights] is overwritten in place, or [fac.weights] is re-assigned.
+    - [WFill v]: every entry becomes [v] ([physical.fill_(v)], [copy_], [physical[...] = v],
+      the setter [fac.weights = full(v)], ...);
+    - [WMul c]: every entry is multiplied by [c] ([weights *= c], [physical.mul_(c)],
+      [weights /= 1/c], ...).
+    The [via] argument of the operation only says which of these Python routes is taken; all
+    routes have the same effect on the weights.  The factor object stays bound under its name
+    (same position in the dict), its domains are untouched. *)
+Inductive wupd := WFill (v : nat) | WMul (c : nat).
+Definition upd_tag (u : wupd) (tag : nat) : nat :=
+  match u with WFill v => v | WMul c => tag * c end.
+Definition f_upd (u : wupd) (f : factor) : factor :=
+  let 'Fac ds tag := f in Fac ds (upd_tag u tag).
+Definition t_upd_weights (t : tables) (name : nat) (u : wupd) : tables * result :=
+  match aget Nat.eq_dec (t_fac t) name with
+  | None => (t, RErr KeyErr)
+  | Some f => (set_fac t (aset Nat.eq_dec (t_fac t) name (f_upd u f)), ROk)
+  end.
+
 (** * Graph *)
 Definition g_add_node (g : graph) (n : node) : graph * result :=
   if amem ident_eq_dec (g_nodes g) (n_id n) then (g, RErr ValueErr)
@@ -484,6 +505,7 @@ Inductive op :=
 | AddFactor (h : nat) (l : elabel) (f : factor)
 | NewFiniteDomain (h l : nat) (d : dom)
 | NewFiniteFactor (h name : nat) (shape : list nat) (tag : nat)
+| UpdWeights (h name : nat) (u : wupd) (via : nat)
 | EqOp (h1 h2 : nat).
 
 (** node arguments are built before the call, left to right; a fresh node takes the next
@@ -620,6 +642,7 @@ Definition step (s : state) (o : op) : state * result :=
   | AddFactor h l f => on_tab s true h (fun t => t_add_factor t l f)
   | NewFiniteDomain h l d => on_tab s true h (fun t => t_add_domain t l d)
   | NewFiniteFactor h name shape tag => on_tab s true h (fun t => t_new_finite_factor t name shape tag)
+  | UpdWeights h name u _ => on_tab s true h (fun t => t_upd_weights t name u)
   | EqOp h1 h2 =>
     match nth_error (objs s) h1, nth_error (objs s) h2 with
     | Some a, Some b => (s, RBool (obj_eqb (objs s) a b))
@@ -759,7 +782,7 @@ Definition target (o : op) : option nat :=
   | AddNode h _ | NewNode h _ _ | RemoveNode h _ | AddEdge h _ _ _ | NewEdge h _ _ _ _ _
   | RemoveEdge h _ | SetExt h _ | AddRule h _ _ | NewRule h _ _ | SetStart h _
   | AddNodeLabel h _ | AddEdgeLabel h _ | AddDomain h _ _ | AddFactor h _ _
-  | NewFiniteDomain h _ _ | NewFiniteFactor h _ _ _ => Some h
+  | NewFiniteDomain h _ _ | NewFiniteFactor h _ _ _ | UpdWeights h _ _ _ => Some h
   | _ => None
   end.
 
